@@ -15,6 +15,10 @@ if r.returncode != 0:
     print("patch does not apply:", r.stderr)
     sys.exit(2)
 res = {"name": name, "checks": {}}
+# the evidence files describe runs on the unchanged tree: keep them out of the way while the tree is changed
+EV, EVBAK = "/verif/evidence", "/verif/build/evidence.clean"
+if os.path.isdir(EV) and not os.path.isdir(EVBAK):
+    shutil.copytree(EV, EVBAK)
 try:
     for p in props:
         t0 = time.time()
@@ -33,6 +37,9 @@ try:
         print(p, "exit", q.returncode, lines[:2], what[:1])
 finally:
     subprocess.run(["git", "-C", "/repo", "checkout", "--", "."])
+    if os.path.isdir(EVBAK):
+        shutil.rmtree(EV, ignore_errors=True)
+        shutil.move(EVBAK, EV)
 res["detected_by"] = [p for p, v in res["checks"].items() if v["exit"] != 0]
 json.dump(res, open(os.path.join(dst, "result.json"), "w"), indent=1)
 print("detected_by", res["detected_by"])
